@@ -64,6 +64,17 @@ theorem exec_scope_eq {fuel : Nat} {a : St} {s s1 : State F} (h : exec fuel a s 
     exec fuel (.scope a) s = if s1.ctl = .ret then { s1 with ctl := .run } else s1 := by
   rw [exec]; simp only [h]
 
+/-! ### `while`, one iteration at a time -/
+
+theorem exec_while_step {fuel : Nat} {c : BE} {body : St} {s s1 : State F} (hok : c.ok s = true)
+    (hc : c.eval s = true) (h1 : exec fuel body s = s1) (hr : s1.ctl = .run) :
+    exec (fuel + 1) (.while c body) s = exec fuel (.while c body) s1 := by
+  rw [exec]; simp only [hok, hc, if_true, h1, hr]
+
+theorem exec_while_done {fuel : Nat} {c : BE} {body : St} {s : State F} (hok : c.ok s = true)
+    (hc : c.eval s = false) : exec (fuel + 1) (.while c body) s = s := by
+  rw [exec]; simp [hok, hc]
+
 /-! ### renamings -/
 
 /-- an injective renaming of variable names -/
